@@ -64,6 +64,22 @@ A *concurrent* case (key "threads") is a set of real threads calling one shared 
   of a check does not depend on other checks in flight (no limit was reached by that check itself).  The clock is
   constant, so no deadline interferes.  Then every answer is judged against the model.
 
+A *helper-history* case (key "hops") is a history of calls of rbacx.rebac.helpers.standard_userset in one process
+(the helper module is freshly loaded at its start), the rule maps of several object types being results of
+different calls.  It is judged against the DOCUMENTED meaning of the helper written down here
+(spec_standard_userset), never against what the helper returns:
+
+  hcase = {"hops": [["call", {"parent_rel": str|None, "with_group_grants": bool}  (an omitted key = the default), "kw"|"pos"]
+                    | ["edit", result index, "append"|"add", relation, EXPR]   (the caller extends ITS copy), ...],
+           "rules": {type: ["helper", result index] | {relation: EXPR} | None},
+           "store", "reg", "ctx", "queries", "limits": as in a group}
+
+* after every op, every result returned so far must be the documented rule map of its own call (plus the caller's
+  edits of that very result), up to order / repetition / nesting of union members -> else violation (a result that
+  is wrong when returned, or an earlier result changed by a later call: aliasing, shared module state)
+* the answers of a LocalRelationshipChecker over the returned maps (put together after the whole history) are judged
+  as above by the model run on the SPECIFIED maps (limits that depend on the order of union members are not used)
+
 Predicate kinds "once:<kind>" keep state (first call ever raises, then pure): the call in which that
 first call can happen is judged by the lower/upper model (predicate raising / pure): never True
 outside the upper `within`, and equal to both when they agree with no limit fired.
@@ -518,8 +534,11 @@ def _check_cases(chk, impl, cases, replay):
     conc = [c for c in cases if "threads" in c]
     if conc:
         _check_concurrent(chk, impl, conc, replay)
-    if hist or conc:
-        cases = [c for c in cases if "ops" not in c and "threads" not in c]
+    helper = [c for c in cases if "hops" in c]
+    if helper:
+        _check_helper(chk, impl, helper, replay)
+    if hist or conc or helper:
+        cases = [c for c in cases if "ops" not in c and "threads" not in c and "hops" not in c]
         if not cases:
             return
     models = run_models(cases)
@@ -1171,6 +1190,353 @@ def _check_concurrent(chk, impl, cases, replay):
         chk.count(k, n)
 
 
+# --------------------------------------------------------------------------
+# histories of calls of the shipped rule-map helper, judged against its DOCUMENTED meaning
+# --------------------------------------------------------------------------
+ROLES = ("viewer", "editor", "owner")
+STRONGER = {"viewer": "editor", "editor": "owner"}       # the documented ladder: viewer <- editor <- owner
+
+
+def spec_standard_userset(parent_rel=None, with_group_grants=True):
+    """What rbacx.rebac.helpers.standard_userset(parent_rel, with_group_grants) MEANS according to
+    docs/rebac/local.md ("viewer/editor/owner (+parent, +group grants)") and the shipped example
+    (viewer: This OR editor OR parent.viewer OR granted.member; editor: This OR owner; owner: This; parent_rel
+    enables TupleToUserset(parent_rel, role) for every role), written in the case language.  This is a
+    specification: it is NOT derived from what the helper returns."""
+    m = {}
+    for role in ROLES:
+        parts = ["this"]
+        if role in STRONGER:
+            parts.append(cu(STRONGER[role]))
+        if parent_rel:
+            parts.append(ttu(parent_rel, role))
+        if with_group_grants and role == "viewer":
+            parts.append(ttu("granted", "member"))
+        m[role] = un(*parts)
+    return m
+
+
+def spec_history(ops):
+    """the documented rule map of every result after every op: [[map per result so far] per op]."""
+    res, trace = [], []
+    for op in ops:
+        if op[0] == "call":
+            a = op[1]
+            res.append(spec_standard_userset(a.get("parent_rel"), a.get("with_group_grants", True)))
+        elif op[0] == "edit":           # the caller extends the map it got from call #i (and no other)
+            _e, i, kind, rel, e = op
+            m = res[i]
+            if kind == "add":
+                m[rel] = copy.deepcopy(e)
+            elif rel not in m:
+                m[rel] = un(copy.deepcopy(e))
+            else:
+                old = m[rel]
+                m[rel] = un(*((old[1] if isinstance(old, list) and old[:1] == ["union"] else [old])
+                              + [copy.deepcopy(e)]))
+        else:
+            raise ValueError(op)
+        trace.append(copy.deepcopy(res))
+    return trace
+
+
+def describe_expr(L, e):
+    if isinstance(e, L.This):
+        return "this"
+    if isinstance(e, L.ComputedUserset):
+        return cu(e.relation)
+    if isinstance(e, L.TupleToUserset):
+        return ttu(e.tupleset, e.computed_userset)
+    if isinstance(e, list):
+        return ["union", [describe_expr(L, x) for x in e]]
+    return ["unknown", type(e).__name__]           # anything else is ignored by the checker
+
+
+def describe_map(L, r):
+    if not isinstance(r, dict):
+        return ["unknown", type(r).__name__]
+    return {str(k): describe_expr(L, v) for k, v in r.items()}
+
+
+def _leaves(d, out):
+    if isinstance(d, list) and d[:1] == ["union"]:
+        for x in d[1]:
+            _leaves(x, out)
+    else:
+        out.add(json.dumps(d))
+    return out
+
+
+def meaning(m):
+    """a rule map up to what the union semantics cannot tell apart (order, repetition, nesting of union members)."""
+    if not isinstance(m, dict):
+        return m
+    return {rel: sorted(_leaves(e, set())) for rel, e in m.items()}
+
+
+def _is_helper_ref(m):
+    return isinstance(m, list) and m[:1] == ["helper"]
+
+
+def _call_text(op):
+    a = op[1]
+    return "standard_userset(%s)" % ", ".join("%s=%r" % (k, a[k]) for k in ("parent_rel", "with_group_grants") if k in a)
+
+
+def helper_run(impl, c):
+    """the helper side of a helper-history case: the calls (and the caller's edits of its own results) in order,
+    starting from freshly loaded module state; every result is re-described after every op.
+    -> {"trace": [[description per result so far] per op], "raise": None | [op index, type, text], "rules": impl rule map}"""
+    import importlib
+
+    from rbacx.rebac import helpers
+
+    importlib.reload(helpers)              # the history of the case is the whole history of the module
+    L = impl.L
+    results, trace = [], []
+    for k, op in enumerate(c["hops"]):
+        try:
+            if op[0] == "call":
+                a = op[1]
+                if len(op) > 2 and op[2] == "pos" and a:
+                    args = [a.get("parent_rel")] + ([a["with_group_grants"]] if "with_group_grants" in a else [])
+                    results.append(helpers.standard_userset(*args))
+                else:
+                    results.append(helpers.standard_userset(**a))
+            elif op[0] == "edit":
+                _e, i, kind, rel, e = op
+                r, new = results[i], conv_expr(L, e)
+                if kind == "add":
+                    r[rel] = new
+                elif rel not in r:
+                    r[rel] = [new]
+                elif isinstance(r[rel], list):
+                    r[rel].append(new)
+                else:
+                    r[rel] = [r[rel], new]
+            else:
+                raise ValueError(op)
+        except Exception as e:  # noqa: BLE001
+            return {"trace": trace, "raise": [k, type(e).__name__, str(e)[:120]], "rules": None}
+        trace.append([describe_map(L, r) for r in results])
+    rules = None
+    if c.get("rules") is not None:        # the checker's rule map is put together after the whole history
+        rules = {}
+        for ty, m in c["rules"].items():
+            if _is_helper_ref(m):
+                rules[ty] = results[m[1]]
+            else:
+                rules[ty] = None if m is None else {rel: conv_expr(L, e) for rel, e in m.items()}
+    return {"trace": trace, "raise": None, "rules": rules}
+
+
+HELPER_DOC = ("documented: viewer <- editor <- owner, each role granted directly, inherited over parent_rel when one is "
+              "given, members of granted groups are viewers when with_group_grants")
+
+
+def helper_structural(c, run, strace):
+    """first op after which some result is not the documented rule map: (clause, op index, info) | None."""
+    ops = c["hops"]
+    if run["raise"]:
+        k = run["raise"][0]
+        return ("%s of the helper history raised %s" % (_call_text(ops[k]) if ops[k][0] == "call" else "op %r" % ops[k],
+                                                         run["raise"][1]), k, {"raised": run["raise"]})
+    callop = []                          # result index -> op that made it
+    for k, (op, got, want) in enumerate(zip(ops, run["trace"], strace)):
+        if op[0] == "call":
+            callop.append(op)
+        target = len(got) - 1 if op[0] == "call" else op[1]
+        for j, (g, w) in enumerate(zip(got, want)):
+            mg, mw = meaning(g), meaning(w)
+            if mg == mw:
+                continue
+            if isinstance(mg, dict):
+                rel = next((r for r in sorted(set(mg) | set(mw)) if mg.get(r) != mw.get(r)))
+                diff = "relation %r has members %s, documented %s" % (rel, mg.get(rel), mw.get(rel))
+            else:
+                diff = "it is %r" % (mg,)
+            who = "%s (result #%d of a history of calls in one process)" % (_call_text(callop[j]), j)
+            if j == target and op[0] == "call":
+                clause = "%s returned a rule map that is not the documented one: %s [%s]" % (who, diff, HELPER_DOC)
+            elif j != target:
+                clause = ("the rule map returned by %s was changed by the later %s, which does not concern it: a result of "
+                          "the helper keeps the meaning that was asked for whatever other calls happen in the process (no "
+                          "aliasing between results, no shared module state): %s [%s]"
+                          % (who, _call_text(op) if op[0] == "call" else "edit of result #%d" % op[1], diff, HELPER_DOC))
+            else:
+                clause = ("after the caller's own edit the rule map returned by %s is not the documented one plus that "
+                          "edit: %s" % (who, diff))
+            return clause, k, {"result": j, "returned_now": g, "documented": w}
+    return None
+
+
+def _helper_model_case(c, strace):
+    final = strace[-1] if strace else []
+    rules = c.get("rules")
+    if rules is not None:
+        rules = {ty: (final[m[1]] if _is_helper_ref(m) else m) for ty, m in rules.items()}
+    return {"store": c["store"], "rules": rules, "reg": c.get("reg"), "ctx": c.get("ctx"),
+            "queries": c.get("queries") or [], "limits": c.get("limits") or []}
+
+
+def _helper_e2e(impl, c, run, mm):
+    """answers of a checker over the rule maps the helper returned, judged by the model run on the SPECIFIED maps:
+    yields (query index, limit index, answer, model, verdict)."""
+    st = impl._store(c["store"])
+    reg = None if c.get("reg") is None else {n: PREDS[k] for n, k in c["reg"].items()}
+    for li, lm in enumerate(c["limits"]):
+        ck = impl.checker(st, run["rules"], reg, lm[0], lm[1], lm[2])
+        for qi, q in enumerate(c["queries"]):
+            m = mm[qi][li]
+            if _bad_model(m):
+                raise RuntimeError("model rejected case: %r %r" % (m, c))
+            a = impl.check(st, run["rules"], reg, c.get("ctx"), q, lm, ck)
+            yield qi, li, a, m, judge(a, m)
+
+
+def _helper_e2e_clause(c, v):
+    calls = [o for o in c["hops"] if o[0] == "call"]
+    return ("with the rule maps of the object types obtained from rbacx.rebac.helpers.standard_userset in one process "
+            "(%s; judged by the model on the DOCUMENTED rule maps of those calls): %s"
+            % ("; ".join("%s <- call #%d %s" % (ty, m[1], _call_text(calls[m[1]]))
+                         for ty, m in sorted((c.get("rules") or {}).items()) if _is_helper_ref(m)), v[1]))
+
+
+def _helper_info(impl, c, run, strace, m):
+    return {"model_on_the_documented_rule_maps": m, "documented_rule_maps": _helper_model_case(c, strace)["rules"],
+            "rule_maps_in_use": None if run["rules"] is None else
+            {ty: describe_map(impl.L, r) if r is not None else None for ty, r in run["rules"].items()}}
+
+
+def _helper_fails(impl, c):
+    """is the (small) helper-history case still a violation?  (used by the shrinker)"""
+    strace = spec_history(c["hops"])
+    run = helper_run(impl, c)
+    if c.get("structural_only"):
+        return helper_structural(c, run, strace) is not None
+    if run["raise"] or not (c.get("queries") and c.get("limits")):
+        return False
+    mm = run_models([_helper_model_case(c, strace)])[0][0]
+    return any(v and v[0] == "violation" for _qi, _li, _a, _m, v in _helper_e2e(impl, c, run, mm))
+
+
+def _drop_hop(c, k):
+    """the case without op k (result indices renumbered), or None when something refers to its result."""
+    ops = c["hops"]
+    if ops[k][0] != "call":
+        return dict(c, hops=ops[:k] + ops[k + 1:])
+    i = sum(1 for o in ops[:k] if o[0] == "call")
+    refs = [m[1] for m in (c.get("rules") or {}).values() if _is_helper_ref(m)] + [o[1] for o in ops if o[0] == "edit"]
+    if i in refs:
+        return None
+    new = [(["edit", o[1] - (o[1] > i)] + list(o[2:])) if o[0] == "edit" else o for o in ops[:k] + ops[k + 1:]]
+    rules = c.get("rules")
+    if rules is not None:
+        rules = {ty: (["helper", m[1] - (m[1] > i)] if _is_helper_ref(m) else m) for ty, m in rules.items()}
+    return dict(c, hops=new, rules=rules)
+
+
+def shrink_helper(impl, c):
+    """greedy: drop ops of the history, then tuples, while the case is still a violation."""
+    cur = c
+    try:
+        changed = True
+        while changed:
+            changed = False
+            k = len(cur["hops"]) - 1
+            while k >= 0:
+                cand = _drop_hop(cur, k) if k < len(cur["hops"]) else None
+                if cand is not None and cand["hops"] and _helper_fails(impl, cand):
+                    cur, changed = cand, True
+                k -= 1
+            i = 0
+            while i < len(cur["store"]):
+                cand = dict(cur, store=cur["store"][:i] + cur["store"][i + 1:])
+                if _helper_fails(impl, cand):
+                    cur, changed = cand, True
+                else:
+                    i += 1
+    except Exception:  # noqa: BLE001 - best effort
+        return c
+    return cur
+
+
+def _check_helper(chk, impl, cases, replay):
+    dist = {}
+
+    def cnt(k, n=1):
+        dist[k] = dist.get(k, 0) + n
+
+    straces = [spec_history(c["hops"]) for c in cases]
+    models = run_models([_helper_model_case(c, s) for c, s in zip(cases, straces)])
+    budget = {"structural": 3, "e2e": 3}      # reports per batch of cases (each shrunk); the rest is counted
+    for c, strace, mres in zip(cases, straces, models):
+        fam = c.get("fam", "helper")
+        ncalls = sum(1 for o in c["hops"] if o[0] == "call")
+        hkey = json.dumps([c["hops"], c.get("rules"), c["store"], c.get("reg"), c.get("ctx")], sort_keys=True, default=str)
+        cnt("fam:" + fam)
+        cnt("helper_calls:%d" % ncalls)
+        cnt("helper_edits:%d" % (len(c["hops"]) - ncalls))
+        run = helper_run(impl, c)
+        # (1) direct structural judgement: every result, after every op, is the documented rule map
+        chk.mark((hkey, "structure"), ncalls >= 2)
+        sv = helper_structural(c, run, strace)
+        if sv:
+            cnt("helper_structural_failures")
+            if (budget["structural"] > 0 and len(chk.violations) < 40) or replay:
+                budget["structural"] -= 1
+                one = {"hops": c["hops"][:sv[1] + 1], "rules": None, "store": [], "reg": None, "ctx": None,
+                       "queries": [], "limits": [], "structural_only": True, "fam": fam}
+                if not replay:
+                    one = shrink_helper(impl, one)
+                    sv2 = helper_structural(one, helper_run(impl, one), spec_history(one["hops"]))
+                    sv = sv2 or sv
+                chk.violation(sv[0], one, impl=sv[2], model={"documented_rule_maps_after_each_op": spec_history(one["hops"])})
+        if run["raise"] or c.get("structural_only") or not (c.get("queries") and c.get("limits")):
+            continue
+        # (2) end to end: the checker over the returned maps against the model over the specified maps
+        mm = mres[0]
+        if _bad_model(mm):
+            raise RuntimeError("model rejected case: %r %r" % (mm, c))
+        failed = False
+        for qi, li, a, m, v in _helper_e2e(impl, c, run, mm):
+            q, lm = c["queries"][qi], c["limits"][li]
+            chk.mark((hkey, q, lm), ncalls >= 2 and (m[1] >= 2 or m[0] == "true"))
+            cnt("outcome:" + m[0])
+            cnt("impl:%s" % (a if isinstance(a, bool) else "raise"))
+            if chk.evaluations % 50021 == 1:
+                chk.sample({"case": dict(c, queries=[q], limits=[lm]), "impl": a, "model": m}, every=1)
+            if not v or failed:
+                continue
+            failed = True                 # one failing pair per history is enough evidence
+            one = dict(c, queries=[q], limits=[lm])
+            if v[0] == "violation":
+                cnt("helper_e2e_failures")
+                if (budget["e2e"] > 0 and len(chk.violations) < 40) or replay:
+                    budget["e2e"] -= 1
+                    if not replay:
+                        small = shrink_helper(impl, one)
+                        try:     # report the answers of the shrunk case, not of the one it came from
+                            s2 = spec_history(small["hops"])
+                            r2 = helper_run(impl, small)
+                            x = next(((a2, m2, v2) for _q, _l, a2, m2, v2
+                                      in _helper_e2e(impl, small, r2, run_models([_helper_model_case(small, s2)])[0][0])
+                                      if v2 and v2[0] == "violation"), None)
+                            if x:
+                                one, (a, m, v), run_, strace_ = small, x, r2, s2
+                                chk.violation(_helper_e2e_clause(one, v), one, impl=a,
+                                              model=_helper_info(impl, one, run_, strace_, m))
+                                continue
+                        except Exception:  # noqa: BLE001
+                            pass
+                    chk.violation(_helper_e2e_clause(one, v), one, impl=a, model=_helper_info(impl, one, run, strace, m))
+            else:
+                chk.corr_break(v[1] + " (rule maps from standard_userset, model on the documented maps)", one, impl=a,
+                               model=_helper_info(impl, one, run, strace, m), theorems=THMS)
+    for k, n in dist.items():
+        chk.count(k, n)
+
+
 def _verdict_of(impl, one):
     """re-run one single-evaluation case through both sides."""
     m = run_models([one])[0][0][0][0]
@@ -1807,6 +2173,96 @@ def gen_conc_cases(chk):
     return out
 
 
+# ---- histories of the rule-map helper -------------------------------------------------------
+# the 6 argument combinations (parent relation none / "parent" / "org" x group grants on / off), each in several
+# spellings (defaults omitted or explicit, keyword or positional)
+HELPER_ARGS = [
+    [{}, {"parent_rel": None}, {"with_group_grants": True}, {"parent_rel": None, "with_group_grants": True}],
+    [{"with_group_grants": False}, {"parent_rel": None, "with_group_grants": False}],
+    [{"parent_rel": "parent"}, {"parent_rel": "parent", "with_group_grants": True}],
+    [{"parent_rel": "parent", "with_group_grants": False}],
+    [{"parent_rel": "org"}, {"parent_rel": "org", "with_group_grants": True}],
+    [{"parent_rel": "org", "with_group_grants": False}],
+]
+# two containment hierarchies from folder:1 (over "parent" and over "org"), nested objects of BOTH types on each,
+# grants of every role at different levels, a group granted an outer and an inner object
+HELPER_STORE = [
+    ["folder:1", "parent", "folder:2", None], ["folder:2", "parent", "doc:1", None], ["doc:1", "parent", "doc:2", None],
+    ["folder:1", "org", "folder:3", None], ["folder:3", "org", "doc:3", None], ["doc:3", "org", "doc:4", None],
+    ["user:o", "owner", "folder:1", None], ["user:e", "editor", "folder:2", None], ["user:v", "viewer", "folder:3", None],
+    ["user:d", "editor", "doc:1", None], ["user:x", "owner", "doc:3", None],
+    ["group:g", "granted", "folder:1", None], ["group:g", "granted", "doc:4", None], ["user:m", "member", "group:g", None],
+]
+HELPER_OBJS = ["folder:1", "folder:2", "folder:3", "doc:1", "doc:2", "doc:3", "doc:4"]
+HELPER_USERS = ["user:o", "user:e", "user:v", "user:d", "user:x", "user:m"]
+HELPER_QUERIES = [[u, r, o] for u in HELPER_USERS for r in ROLES for o in HELPER_OBJS]          # 126
+HELPER_EDITS = [["append", "viewer", ttu("org", "viewer")], ["append", "owner", ttu("parent", "owner")],
+                ["append", "editor", ttu("org", "editor")], ["append", "editor", cu("commenter")],
+                ["add", "commenter", un("this", cu("viewer"))], ["add", "commenter", cu("owner")],
+                ["append", "viewer", ttu("granted", "member")], ["append", "commenter", "this"]]
+
+
+def _helper_call(k, ai):
+    sp = HELPER_ARGS[ai]
+    a = sp[k % len(sp)]
+    return ["call", a, "pos" if (k // len(sp)) % 2 and "parent_rel" in a else "kw"]
+
+
+def gen_helper_cases(chk):
+    """histories of standard_userset calls in one process: every sequence of <= 2 (thorough: <= 3) calls over the 6
+    argument combinations x every assignment of two of the results to the object types doc / folder, over a store
+    with nested objects of both types; all 126 (user, role, object) queries; longer histories on a stride."""
+    thorough = chk.tier == "thorough"
+    out, k = [], 0
+    lims = [NOLIMIT, lim(2, 10000)] + ([lim(1, 10000), lim(None, None, None)] if thorough else [])
+    for n in (1, 2, 3, 4):
+        for seq in itertools.product(range(len(HELPER_ARGS)), repeat=n):
+            for di, fi in itertools.product(range(n), repeat=2):
+                k += 1
+                stride = {1: 1, 2: 1, 3: 1 if thorough else 37, 4: 29 if thorough else 601}[n]
+                if k % stride:
+                    continue
+                ops = [_helper_call(k + j, ai) for j, ai in enumerate(seq)]
+                out.append({"hops": ops, "rules": {"doc": ["helper", di], "folder": ["helper", fi],
+                                                   "group": {"member": un("this")}},
+                            "store": HELPER_STORE, "reg": None, "ctx": None, "queries": HELPER_QUERIES,
+                            "limits": lims if n <= 2 else lims[:2] if thorough else lims[:1], "fam": "helper-enum"})
+    return out
+
+
+def gen_helper_random(chk):
+    """seeded random helper histories (1..4 calls, the caller's own edits of single results in between) configuring
+    doc / folder / group over random layered stores (caveats, cycles, groups)."""
+    rng = chk.rng
+    out = []
+    for _ in range(150 if chk.tier == "quick" else 5000):
+        store, _rules, reg, queries = gen_layered(rng)
+        ops, ncalls = [], 0
+        for _j in range(rng.randint(1, 4)):
+            a = {}
+            if rng.random() < 0.7:
+                a["parent_rel"] = rng.choice([None, "parent", "parent", "parent", "org", "granted"])
+            if rng.random() < 0.6:
+                a["with_group_grants"] = rng.random() < 0.5
+            ops.append(["call", a, "pos" if "parent_rel" in a and rng.random() < 0.3 else "kw"])
+            ncalls += 1
+            while rng.random() < 0.2:
+                ops.append(["edit", rng.randrange(ncalls)] + copy.deepcopy(rng.choice(HELPER_EDITS)))
+        rules = {"doc": ["helper", rng.randrange(ncalls)], "folder": ["helper", rng.randrange(ncalls)]}
+        x = rng.random()
+        if x < 0.6:
+            rules["group"] = {"member": un("this")}
+        elif x < 0.8:
+            rules["group"] = ["helper", rng.randrange(ncalls)]
+        users = sorted({q[0] for q in queries})
+        objs = sorted({t[2] for t in store if ":" in t[2]}) or ["doc:0"]
+        queries = queries + [[rng.choice(users), rng.choice(ROLES + ("commenter",)), rng.choice(objs)] for _j in range(8)]
+        out.append({"hops": ops, "rules": rules, "store": store, "reg": reg, "ctx": rng.choice(CTXS), "queries": queries,
+                    "limits": [NOLIMIT, lim(rng.choice([0, 1, 2, 3]), 10000), lim(None, None, None)],
+                    "fam": "helper-random"})
+    return out
+
+
 def load_corpus():
     d = lib.VERIF / "corpus" / "C12"
     out = []
@@ -1851,7 +2307,21 @@ def run(chk):
                 "and 2, seeded random, all single pre-emptions (2 threads; thorough <= 3); two threads under the "
                 "line-level scheduler harness/sched.py over rbacx/rebac/local.py with single pre-emptions before every "
                 "(or every 2nd / 3rd; quick: every 3rd) source line; a few rounds of free-running threads with yielding predicates (sampled "
-                "schedules); non-trivial = at least two threads ran and (>= 2 nodes visited or answered true)")
+                "schedules); non-trivial = at least two threads ran and (>= 2 nodes visited or answered true). "
+                "Helper histories (one evaluation = the structural judgement of one history, or one check over the "
+                "rule maps it produced): histories of calls of rbacx.rebac.helpers.standard_userset in one process "
+                "(module freshly loaded per history), judged against the documented meaning of the helper written down "
+                "in the harness (spec_standard_userset), not against what it returns: after EVERY call every result so "
+                "far must be the documented rule map of its own arguments (up to order / repetition / nesting of union "
+                "members), and a checker whose object types doc / folder take the results of two (same or different) "
+                "calls must answer as the model does on the documented maps; every sequence of <= 2 calls (thorough: "
+                "<= 3; 3 and 4 on a stride) over the 6 argument combinations (parent relation none / parent / org x "
+                "group grants on / off; defaults omitted or explicit, keyword or positional) x every assignment of "
+                "results to the two types x all 126 (user, role, object) queries over a store with nested objects of "
+                "both types under both parent relations x max_depth {8, 2} (thorough + {1, default}); seeded random "
+                "histories of 1..4 calls with the caller's own edits of single results (append a union member, add a "
+                "relation) over random layered stores; non-trivial = the history has >= 2 calls (and, for a check, >= "
+                "2 nodes visited or answered true)")
     chk.assumptions = [
         "subjects, relations, objects and caveat names are str; max_depth/max_nodes/deadline_ms are int",
         "a caveat predicate is a function of the context of the call (model: option bool per name); only "
@@ -1862,6 +2332,11 @@ def run(chk):
         "time is read through time.perf_counter_ns only (scripted test-side)",
         "concurrent family: controlled schedules pre-empt a thread only at test-side hooks (clock reads, predicate "
         "calls) or, for two threads, before source lines of rbacx/rebac/local.py; free-running rounds sample schedules",
+        "helper histories: the documented meaning of standard_userset(parent_rel, with_group_grants) is the one written "
+        "in spec_standard_userset (docs/rebac/local.md tip + examples/rebac/rebac_local_demo_with_helper.py: viewer <- "
+        "editor <- owner, every role inherited over parent_rel when given, members of granted groups are viewers); "
+        "parent_rel is None or a non-empty str, with_group_grants a bool; rule maps are compared up to the union "
+        "semantics; the process history of the helper module starts at importlib.reload",
     ]
     corpus = load_corpus()
     chk.extra["corpus_witnesses"] = [c.get("id") for c in corpus]
@@ -1887,6 +2362,10 @@ def run(chk):
     cc = gen_conc_cases(chk)
     chk.extra["concurrent_cases"] = len(cc)
     check_cases(chk, cc)
+    hh = gen_helper_cases(chk) + gen_helper_random(chk)
+    chk.extra["helper_histories"] = len(hh)
+    for i in range(0, len(hh), 400):
+        check_cases(chk, hh[i:i + 400])
     # _split_ref (private helper; skipped when it is gone)
     from rbacx.rebac import local as L
 
